@@ -2,20 +2,18 @@
     requires
         element_count <= usize::MAX / 2,   // `(start + end) / 2` is computed in usize
         forall|i: usize| i < element_count ==> f.requires((i,)),
-        // the closure is a function of the index whenever it succeeds (single-task sequentialisation, R-async)
-        functional(f, element_count as int),
+        // the closure presents the array a (single-task sequentialisation, R-async)
+        a.len() == element_count, consistent(f, a),
         // C15 hypothesis: one contiguous populated run in rotation order, oldest to newest; target above all times
-        rotated_run(arr(f, element_count as int)),
-        below(arr(f, element_count as int), target),
+        rotated_run(a), below(a, target),
     ensures
         // C15: the populated directory uploaded most recently — wherever it lies — or none when all are empty
         // (a failed listing request makes the search fail; nothing is claimed then)
-        res matches Ok(o) ==> is_newest(arr(f, element_count as int), to_int(o)),
+        res matches Ok(o) ==> is_newest(a, to_int(o)),
 @entry
-    let ghost a = arr(f, element_count as int);
     let ghost n = element_count as int;
 @after "let mut first_value = f(0)"
-    proof { lemma_atk(f, n, 0, first_value); assert(a[0] == first_value); if first_value is Some { assert(pop(a, 0)); } }
+    proof { assert(a[0] == first_value); if first_value is Some { assert(pop(a, 0)); } }
 @before "while !queue.is_empty()"
     proof {
         assert forall|i: int| #[trigger] pop(a, i) implies covered(queue@, i) by { assert(queue@[0].0 <= i <= queue@[0].1); }
@@ -26,9 +24,8 @@
         nearest is None && nearest_value is None,
         all_covered(a, queue@),
     invariant
-        element_count > 0, n == element_count, a == arr(f, n),
+        element_count > 0, n == element_count, a.len() == n, consistent(f, a),
         forall|i: usize| i < element_count ==> f.requires((i,)),
-        functional(f, n),
         below(a, target),
         some_target == Some(&target),
         first_value == a[0], opt_val(first_value_ref) == first_value,
@@ -44,7 +41,7 @@
 @before "continue" nth=0
     proof { lemma_weight_nonneg(queue@); lemma_cov_drop_empty(a, old_q); }
 @after "let mid_value = f(mid)"
-    proof { lemma_atk(f, n, mid, mid_value); assert(a[mid as int] == mid_value); if mid_value is Some { assert(pop(a, mid as int)); } }
+    proof { assert(a[mid as int] == mid_value); if mid_value is Some { assert(pop(a, mid as int)); } }
 @before "queue.push_back((mid + 1, end))"
     let ghost q1 = queue@;
 @after "queue.push_back((mid + 1, end))"
@@ -73,12 +70,11 @@
     let ghost climb = plan.0;
     let ghost b = plan.1;
 @after "first_value = f(low)"
-    proof { lemma_atk(f, n, low, first_value); assert(a[low as int] == first_value); }
+    proof { assert(a[low as int] == first_value); }
 @loop 1 header
     invariant
-        element_count > 0, n == element_count, a == arr(f, n),
+        element_count > 0, n == element_count, a.len() == n, consistent(f, a),
         forall|i: usize| i < element_count ==> f.requires((i,)),
-        functional(f, n),
         below(a, target),
         some_target == Some(&target),
         low <= high <= element_count,
@@ -87,7 +83,7 @@
     decreases high - low
 @after "let value = f(mid)"
     proof {
-        lemma_atk(f, n, mid, value); assert(a[mid as int] == value);
+        assert(a[mid as int] == value);
         if value is Some { assert(pop(a, mid as int)); }
         if m is Some {
             let mm = m->Some_0;
